@@ -8,6 +8,7 @@ import (
 	"github.com/gr33nbl00d/caddy-revocation-validator/core"
 	"github.com/gr33nbl00d/caddy-revocation-validator/core/hashing"
 	"github.com/gr33nbl00d/caddy-revocation-validator/core/utils"
+	"github.com/gr33nbl00d/caddy-revocation-validator/core/verifhook"
 	"github.com/gr33nbl00d/caddy-revocation-validator/crl/crlreader"
 	"github.com/syndtr/goleveldb/leveldb"
 	"go.uber.org/zap"
@@ -170,29 +171,35 @@ func (S *LevelDbStore) Update(store CRLStore) error {
 	if err != nil {
 		return err
 	}
+	verifhook.Hit("ldb.update.closedOld", S)
 	err = S.closeDbWithRetries(levelDbNew.Db)
 	if err != nil {
 		return err
 	}
+	verifhook.Hit("ldb.update.closedNew", S)
 	levelDBPath := filepath.Join(S.BasePath, S.Identifier)
 	levelDBPathTemp, err := S.renameWithRetriesToTempDir(S.LevelDBPath)
 	if err != nil {
 		return err
 	}
+	verifhook.Hit("ldb.update.movedAside", S)
 	err = S.renameWithRetries(levelDbNew.LevelDBPath, levelDBPath)
 	if err != nil {
 		return err
 	}
+	verifhook.Hit("ldb.update.movedIn", S)
 
 	err = S.removeWithRetries(levelDBPathTemp)
 	if err != nil {
 		S.Logger.Warn("failed to delete temporary path, will be deleted on next restart", zap.String("path", levelDBPathTemp))
 	}
+	verifhook.Hit("ldb.update.removedOld", S)
 	db, err := openDbWithRetries(levelDBPath, S.Logger)
 	if err != nil {
 		return err
 	}
 	S.Db = db
+	verifhook.Hit("ldb.update.reopened", S)
 	return nil
 }
 
